@@ -104,6 +104,13 @@ async def base_session(sim, shape, inject):
         except Exception as e:
             sim.emit(f"apiRaised {name} {type(e).__name__}")
     try:
+        if getattr(sim, "first_connect_timeout", None):
+            # the application bounds its connect() with a timeout that expires while the CONNECTED status callback is still running
+            try:
+                await asyncio.wait_for(c.connect(), sim.first_connect_timeout)
+            except (asyncio.TimeoutError, asyncio.CancelledError):
+                pass
+            await sim.pause(0.2)
         await api("connect", c.connect())
         await sim.settle(0.001)
         if shape == "flap":
@@ -204,6 +211,8 @@ async def base_session(sim, shape, inject):
     finally:
         await asyncio.gather(inj, return_exceptions=True)
         sim.state_at_end = c.state.name       # before the harness's own final close()
+        rt = getattr(c, "_receive_task", None)
+        sim.receiver_at_end = rt is not None and not rt.done()
         sim.time_at_end = asyncio.get_event_loop().time()
         if not sim.events or sim.events[-1] != "closeReturn":
             if c.state.name != "CLOSED" or "closeReturn" not in sim.events:
@@ -273,6 +282,14 @@ def injector(action, ticks=None, at=None):
                 await c.close()
             except Exception as e:
                 sim.emit(f"apiRaised close {type(e).__name__}")
+        elif action == "eof-connect-timeout" and sim.conns:
+            # the link is lost; the application also calls connect(), bounded by a timeout that expires between two refused attempts
+            sim.eof()
+            await sim.ticks(3)
+            try:
+                await asyncio.wait_for(c.connect(), 0.7)
+            except (asyncio.TimeoutError, asyncio.CancelledError):
+                pass
         elif action == "busy" and sim.conns:
             sim.busy()
         elif action == "eof-close" and sim.conns:
@@ -348,6 +365,16 @@ def scenarios(ctx):
             for action in ("none", "eof"):
                 for kindp, v in [("ticks", 6), ("at", 0.4)]:
                     out.append(dict(kind=kind, shape="burst", connect=["ok"], action=action, point=[kindp, v], cb=cbm, status="ok", drain=None))
+        # connect() calls that their caller cancels (a timeout): during the CONNECTED status callback, and between two refused attempts while
+        # the reconnect task is due
+        for kindp, v in [("ticks", 6), ("at", 0.4), ("at", 2.0)]:
+            for action in ("none", "eof"):
+                out.append(dict(kind=kind, shape="plain", connect=["ok"], action=action, point=[kindp, v], cb="ok", status="slow-connected", drain=None, first_connect_timeout=0.02))
+            out.append(dict(kind=kind, shape="plain", connect=["ok", "refuse", "refuse", "refuse", "ok"], action="eof-connect-timeout", point=[kindp, v], cb="ok", status="ok", drain=None))
+        if kind in ("ebyte", "yd", "waveshare"):
+            # a seeding send fails and the status callback closes the client: inside the seeding task
+            for v in (1.9, 3.9):
+                out.append(dict(kind=kind, shape="plain", connect=["ok"], action="writefail", point=["at", v], cb="ok", status="close-on-disconnect", drain=None, client={"build_network_map": True}))
         for action in ("close-twice", "close-interrupted"):
             for stm in ("slow", "ok"):
                 for kindp, v in [("ticks", 6), ("at", 0.4), ("at", 2.0)]:
@@ -384,6 +411,7 @@ def run_scenario(sc):
                         drain_script=sc.get("drain"), **(sc.get("client") or {}))
     sim.close_after = sc.get("close_after", 1.0)
     sim.long = sc.get("long", False)
+    sim.first_connect_timeout = sc.get("first_connect_timeout")
     sim.variant = sc.get("variant", 0)
 
     async def go():
@@ -667,13 +695,13 @@ def monitor(sim, sc):
         pass
     # C13: never-zero delay: between a DISCONNECTED report and the next connection attempt there is a wait
     for i, e in enumerate(ev):
-        if e == "status DISCONNECTED" and sc["status"] != "connect-on-disconnect" and sc["action"] != "connect":     # (a connect() the application itself issues is not a retry)
+        if e == "status DISCONNECTED" and sc["status"] != "connect-on-disconnect" and sc["action"] not in ("connect", "eof-connect-timeout") and not sc.get("first_connect_timeout"):     # (a connect() the application itself issues is not a retry)
             j = next((k for k in range(i + 1, len(ev)) if ev[k].startswith("implStart")), None)
             if j is not None and not any(x.startswith(("sleep", "reconnSleep")) and int(x.split()[1]) > 0 for x in ev[i:j]):
                 out.append(("C13", "zero-delay", "a connection attempt follows a DISCONNECTED report without any wait (a gateway that accepts and drops is reconnected to in a tight loop)"))
                 break
     # C13: attempts are never closer together than the smallest retry delay, however many senders report the fault
-    if sc["action"] != "connect" and sc["status"] != "connect-on-disconnect":
+    if sc["action"] not in ("connect", "eof-connect-timeout") and sc["status"] != "connect-on-disconnect" and not sc.get("first_connect_timeout"):
         ts = [t for e, t in zip(ev, getattr(sim, "event_times", [])) if e.startswith("implStart") and t is not None]
         gaps = [b - a for a, b in zip(ts, ts[1:])]
         if gaps and min(gaps) < 0.499:
@@ -753,6 +781,12 @@ def monitor(sim, sc):
     settled = getattr(sim, "time_at_end", 0) - t_fault > 5.0           # (a fault in the very last send of the session leaves no time to recover)
     if not closes and settled and sc["shape"] != "flap" and sc["action"] != "busy" and sc["connect"][-1] == "ok" and getattr(sim, "state_at_end", "CONNECTED") != "CONNECTED" and "STALL" not in ev:
         out.append(("C13", "not-recovered", f"at the end of the session (more than 5 s after the last fault, the gateway accepting) the client is {sim.state_at_end}: status log {sim.status_log}"))
+    # C13: CONNECTED means that somebody reads from the link
+    if getattr(sim, "state_at_end", None) == "CONNECTED" and not getattr(sim, "receiver_at_end", True) and "STALL" not in ev:
+        out.append(("C13", "connected-without-receiver", "at the end of the session the client is CONNECTED but no receive task is running: nothing is delivered and the end of the stream goes unnoticed"))
+    # C14: after close() has returned the client does nothing any more by itself (its seeding task sends no further request)
+    if close_ret is not None and any(x.startswith("sendCall ") and int(x.split()[1]) > 200 for x in ev[close_ret + 1:]):
+        out.append(("C14", "activity-after-close", "the client's network-map seeding task called send() after close() had returned"))
     # C14: when close() returns, the link has been shut (every close() call, also a second one)
     if "--closeReturnedLinkOpen" in ev:
         out.append(("C14", "link-open-at-return", "a close() call returned while the link was still open"))
